@@ -481,7 +481,13 @@ def r07_8(ctx: Ctx) -> None:
     jv = inner.target.id if isinstance(inner.target, ast.Name) else "?"
     nv = norm(inner.iter.args[0]) if isinstance(inner.iter, ast.Call) and dotted(inner.iter.func) == "range" and len(inner.iter.args) == 1 else "?"
     last_tests = {f"{jv} + 1 != {nv}", f"{jv} != {nv} - 1", f"{jv} < {nv} - 1", f"{jv} + 1 < {nv}"}
-    ok = len(wr) == 1 and any(norm(cd) in last_tests and pol for cd, pol in q.facts_at(f, wr[0])) and norm(wr[0].args[1]).endswith(f"[{idxs[0].target.id}]")
+    def not_last(cd: ast.AST, pol: bool) -> bool:
+        """is `cd` taken with polarity `pol` the statement 'j is not the last index below num'?  (finite table; any spelling)"""
+        try:
+            return all((bool(shared.truth_eval(cd, {jv: j_, nv: n_})) == pol) == (j_ != n_ - 1) for n_ in (1, 2, 3, 5) for j_ in range(n_))
+        except shared.Unknown:
+            return False
+    ok = len(wr) == 1 and any((norm(cd) in last_tests and pol) or not_last(cd, pol) for cd, pol in q.facts_at(f, wr[0])) and norm(wr[0].args[1]).endswith(f"[{idxs[0].target.id}]")
     ctx.check(ok, "R07.8", f, wr[0] if wr else inner, "a size is written for all but the last stream of a folder", "sizes are not written for exactly all-but-the-last stream of each folder")
     # digests section: written when any digest is defined, with the defined vector
     n = cond_of("CRC")
